@@ -16,7 +16,7 @@ from ..engine.facts import dotted, const, src, walk_func, enclosing_stmt, ancest
 from . import skeletons as sk
 from . import c04  # strict-emission (imported names precede the context) is registered for C07 there
 from . import c05  # attribute-pieces (file="${...}" values) is registered for C07 there
-from .common import calls, stmt_nodes, param_names, pn, access_paths, assigned_from, resolve, resolve_deep, return_leaves, guards_of
+from .common import calls, stmt_nodes, param_names, pn, access_paths, assigned_from, resolve, resolve_deep, return_leaves, guards_of, facts_at
 
 
 @rule("C07.single-gateway", min_instances=7)
@@ -212,7 +212,7 @@ def memo_keys(ctx):
     gn = db.func("runtime.Namespace.get_namespace")
     uri = pn(gn, 1)
     keys = [s for s in walk_func(gn) if isinstance(s, ast.Assign) and isinstance(s.targets[0], ast.Name) and isinstance(s.value, ast.Tuple)]
-    used = [t_.slice for s_ in walk_func(gn) if isinstance(s_, ast.Assign) for t_ in s_.targets if isinstance(t_, ast.Subscript) and dotted(t_.value) == "self.context.namespaces"]
+    used = [t_.slice for s_ in walk_func(gn) if isinstance(s_, ast.Assign) for t_ in s_.targets if isinstance(t_, ast.Subscript) and dotted(resolve_deep(gn, t_.value, 2)) == "self.context.namespaces"]
     ctx.require(used, "get_namespace does not memoise in context.namespaces (anchor)")
     k = used[0]
     kv = None
@@ -232,7 +232,7 @@ def memo_keys(ctx):
                     deps.add(x.id)
     ok = uri in parts and ("self" not in deps or bool(parts & {"self", "self._templateuri", "self.uri"}))
     ctx.check(ok, "get_namespace.key", db.where(kv) if kv is not None else db.where(gn), "get_namespace memoises under (%s) a namespace that depends on %s: the same relative uri asked for from templates in different directories yields the namespace resolved for the first of them" % (", ".join(sorted(parts)), sorted(deps)), "key holds the calling namespace and the uri")
-    ctx.check(P.has(gn, "if $k in self.context.namespaces:\n    return self.context.namespaces[$k]") or any(isinstance(v_, ast.Subscript) and dotted(v_.value) == "self.context.namespaces" and ("%s in self.context.namespaces" % src(v_.slice).join(["(", ")"] if isinstance(v_.slice, ast.Tuple) and not src(v_.slice).startswith("(") else ["", ""]), True) in g_ for v_, g_ in return_leaves(gn)), "get_namespace.read", db.where(gn), "the memo is not read under the key it is written under", "read and written under one key")
+    ctx.check(P.has(gn, "if $k in self.context.namespaces:\n    return self.context.namespaces[$k]") or any(isinstance(v_, ast.Subscript) and dotted(resolve_deep(gn, v_.value, 2)) == "self.context.namespaces" and ("%s in self.context.namespaces" % src(v_.slice).join(["(", ")"] if isinstance(v_.slice, ast.Tuple) and not src(v_.slice).startswith("(") else ["", ""]), True) in facts_at(v_, gn, resolve_locals=True) for v_, g_ in return_leaves(gn)), "get_namespace.read", db.where(gn), "the memo is not read under the key it is written under", "read and written under one key")
     au = db.func("lookup.TemplateLookup.adjust_uri")
     kk = {s.targets[0].id: s.value for s in walk_func(au) if isinstance(s, ast.Assign) and isinstance(s.value, ast.Tuple) and isinstance(s.targets[0], ast.Name)}
     subs = [n for n in walk_func(au) if isinstance(n, ast.Subscript) and dotted(n.value) == "self._uri_cache"]
